@@ -223,6 +223,9 @@ func (s *setSubj[T]) modelOrdered() []T {
 }
 
 func (s *setSubj[T]) check(o *Oracle) {
+	if !(o.On("C04") || o.On("C02") || o.On("C09") || o.On("C15") || o.On("C16")) {
+		return
+	}
 	vals := s.s.Values()
 	if o.On("C04") || o.On("C16") {
 		tag := "C04"
